@@ -137,12 +137,12 @@ class Entity(ABC):
         """
         Coordinate reference system attached to the entity.
         """
-        coordinate_reference_system = DEFAULT_CRS
+        coordinate_reference_system = DEFAULT_CRS.copy()
 
         if self.metadata is not None and "Coordinate Reference System" in self.metadata:
             coordinate_reference_system = self.metadata[
                 "Coordinate Reference System"
-            ].get("Current", DEFAULT_CRS)
+            ].get("Current", DEFAULT_CRS.copy())
 
         return coordinate_reference_system
 
